@@ -203,6 +203,18 @@ theorem prefix_match_correct (r : RE) (p : Option Ch) (w : List Ch) (n : Option 
     prefixMatch r p w n = true ↔ ∃ u v, w = u ++ v ∧ Matches r p u (ctxR v n) :=
   prefixMatch_iff r p w n
 
+/-- `leftmostStart r s k = some j`: a match of `r` starts at `j ≥ k` (some prefix of `s[j:]` is in
+the language, in its context) and no match starts at any position in `[k, j)` -/
+theorem leftmost_start_some (r : RE) (s : List Ch) (k j : Nat) (h : leftmostStart r s k = some j) :
+    ∃ u v, s.drop k = u ++ v ∧ j = k + u.length ∧ prefixMatch r (ctxL (s.take k).getLast? u) v none = true ∧
+      ∀ u' v', s.drop k = u' ++ v' → u'.length < u.length → prefixMatch r (ctxL (s.take k).getLast? u') v' none = false :=
+  lmsGo_some r (s.drop k) _ k j h
+
+/-- `leftmostStart r s k = none`: no match of `r` starts at any position `≥ k` -/
+theorem leftmost_start_none (r : RE) (s : List Ch) (k : Nat) (h : leftmostStart r s k = none) :
+    ∀ u v, s.drop k = u ++ v → prefixMatch r (ctxL (s.take k).getLast? u) v none = false :=
+  lmsGo_none r (s.drop k) _ k h
+
 /-- `translate_pattern`'s multi-digit back-reference loop encodes, for every digit string and every
 number of groups opened so far, the F&O resolution: the longest prefix that does not exceed the
 group count is the group number, the remaining digits are literal characters -/
